@@ -214,6 +214,11 @@ impl<'a> AnalyzeContext<'a, '_> {
                             }
                         }
                     }
+                    // A subtype declaration is not a full type declaration
+                    // and must not complete an incomplete type
+                    TypeDefinition::Subtype(..) => {
+                        self.analyze_type_declaration(scope, parent, type_decl, None, diagnostics)?;
+                    }
                     _ => {
                         let incomplete_type = incomplete_types.get(type_decl.ident.name());
                         if let Some((incomplete_type, _)) = incomplete_type {
@@ -1292,7 +1297,8 @@ fn find_full_type_definition<'a>(
     for decl in decls.iter() {
         if let Declaration::Type(type_decl) = &decl.item {
             match type_decl.def {
-                TypeDefinition::Incomplete(..) => {
+                // Only a full type declaration completes an incomplete type
+                TypeDefinition::Incomplete(..) | TypeDefinition::Subtype(..) => {
                     // ignored
                 }
                 _ => {
